@@ -167,6 +167,8 @@ def h_scopes(params, v0, v1, v2, v3, t, i, sealed, acc_off, s1, s2, a1, a2, w):
     return _check_one(params, root, t, t, i, sealed, acc_off, (s1, s2), (a1, a2), 50, 'scoped.')
 
 
+# operations after which the quick tier also makes the seal()/unseal calls inside an as_sealed scope
+SEAL_UNDER_OPS = ('setitem', 'setattr', 'append', 'rebind_key', 'delitem')
 SCOPE_OPS = ['setitem', 'setattr', 'delitem', 'append', 'update', 'rebind_key', 'rebind_idx', 'rebind_deep', 'pop', 'iadd', 'ior',
              'set_slice', 'clear', 'insert']
 
@@ -180,7 +182,7 @@ def shards(tier, seed):
     for op in T.MUTATING:
       if not T.op_fits(op, skel):
         continue
-      out.append(dict(name=f'flags:{skel}:{op}', fn='h_flags', params=dict(skel=skel, op=op, su=(0, 2) if quick else (0, 1, 2, 3)),
+      out.append(dict(name=f'flags:{skel}:{op}', fn='h_flags', params=dict(skel=skel, op=op, su=((0, 2) if op in SEAL_UNDER_OPS else (0,)) if quick else (0, 1, 2, 3)),
                       args=_ARGS, budget_s=b, per_path_s=15))
       if not quick:
         out.append(dict(name=f'flags_subtree:{skel}:{op}', fn='h_flags', params=dict(skel=skel, op=op, vkind='subtree'),
